@@ -224,7 +224,7 @@ func NewSimSource(st *Stream, c *RunConfig, sim bool) *SimSource {
 
 func (s *SimSource) faultErr() error {
 	switch s.fault.Kind {
-	case "eof":
+	case "eof", "partialeof":
 		return io.EOF
 	case "ueof":
 		return io.ErrUnexpectedEOF
@@ -335,7 +335,7 @@ func (s *SimSource) serve(p []byte) (int, error) {
 		// whole request is dropped by io.ReadFull by contract and every byte
 		// is then delivered: the property is silent there, so in that one
 		// case the error is returned by the next Read instead.
-		if s.fault.Kind == "partial" && (s.fault.Sticky || n < len(p)) {
+		if (s.fault.Kind == "partial" || s.fault.Kind == "partialeof") && (s.fault.Sticky || n < len(p)) {
 			// deliver the remaining bytes together with the error
 			got := s.st.ReadAt(s.pos, p[:n])
 			s.pos += int64(got)
